@@ -96,6 +96,11 @@ def all_jobs():
                       props=props, pretty='bloc::%s::value' % c, canaries=['normal', 'exceptional'], unwind=2,
                       unwind_why='Value::deref_value() pointer chase; tables hold no pointers (precondition), so one test of the loop condition is complete',
                       structs=DEFAULT_STRUCTS + [STD_STRING, VEC_CHAR, 'bloc::Collection', 'bloc::Tuple', 'bloc::Context']))
+    mg = '_ZNK4bloc22MemberINSERTExpression5valueERNS_7ContextE'
+    J.append(dict(id='member_insert', src='blocc/member/member_insert.cpp', contract='member_insert.c', enforce=mg, roots=[mg], replace=list(MEMB_REPLACE), cut=list(MEMB_CUT),
+                  props=['C01', 'C05', 'C09', 'C10'], pretty='bloc::MemberINSERTExpression::value', canaries=['normal', 'exceptional'], unwind=2,
+                  unwind_why='Value::deref_value() pointer chase; the element loops of table-into-table insertion are outside the contract domain (operand assumption)',
+                  structs=DEFAULT_STRUCTS + [STD_STRING, VEC_CHAR, 'bloc::Collection', 'bloc::Tuple', 'bloc::Context']))
     HASHFN = '_ZN4blocL17bloc_builtin_hashEjPKcj'
     J.append(dict(id='builtin_hash_loop', src='blocc/builtin/builtin_hash.cpp', contract='builtin_hash.c', enforce=HASHFN, roots=[HASHFN], replace=[], cut=[RTE_CTOR, RTE_CTOR_S],
                   props=['C01', 'C10'], pretty='bloc::bloc_builtin_hash', canaries=['normal'], defines=['HASH_LOOP_JOB', 'HASH_LEN_MAX=6'], unwind=8, bounded_inputs=True,
